@@ -86,7 +86,10 @@ structure QState where
   isAnalysis : Bool
   /-- live entries of `predefined_names` dictionaries -/
   predefined : Nat
-  dynamicParamsDepth : Nat
+  /-- `dynamic_params_depth` (a Python int: a misplaced decrement can make it negative) -/
+  dynamicParamsDepth : Int
+  /-- `recursion_detector.pushed_nodes` -/
+  pushed : List Nat
   /-- `inferred_element_counts` -/
   counts : Counts
   /-- number of `memoize_cache` entries -/
@@ -94,20 +97,55 @@ structure QState where
 
 def QState.init : QState :=
   { bookkeepingFresh := true, flowAnalysisEnabled := true, isAnalysis := false, predefined := 0,
-    dynamicParamsDepth := 0, counts := Counts.empty, memo := 0 }
+    dynamicParamsDepth := 0, pushed := [], counts := Counts.empty, memo := 0 }
 
 /-- the switches have their defaults -/
 def QState.switchesDefault (s : QState) : Prop :=
-  s.flowAnalysisEnabled = true ∧ s.isAnalysis = false ∧ s.predefined = 0 ∧ s.dynamicParamsDepth = 0
+  s.flowAnalysisEnabled = true ∧ s.isAnalysis = false ∧ s.predefined = 0 ∧ s.dynamicParamsDepth = 0 ∧
+  s.pushed = []
 
 /-- `InferenceState.reset_recursion_limitations`; `resets` = the attributes it re-creates
-(translator) -/
+(translator). Note: `dynamic_params_depth` is NOT among them - nothing but the bracket in
+`_avoid_recursions` brings it back. -/
 def reset (resets : List String) (s : QState) : QState :=
   { s with
     bookkeepingFresh :=
       if resets.contains "self.execution_recursion_detector" && resets.contains "self.recursion_detector"
       then true else s.bookkeepingFresh
+    pushed := if resets.contains "self.recursion_detector" then [] else s.pushed
     counts := if resets.contains "self.inferred_element_counts" then Counts.empty else s.counts }
+
+/-- what the source fixes about a query body: the cap of `_limit_value_infers`, `MAX_PARAM_SEARCHES`
+and WHERE in `dynamic_params._avoid_recursions.wrapper` the statements
+`inf.dynamic_params_depth += 1` / `-= 1` stand (translator): tokens `<place>:inc` / `<place>:dec`, place one of
+`pre` (before the `with recursion.execution_allowed(...)`), `allowed` (in `if allowed:` before the `try`),
+`finally` (the `finally` of that `try`), `blocked` (in the `with` block after the `if`: the path taken
+when the recursion guard answered False) -/
+structure Cfg where
+  cap : Nat
+  factor : Nat
+  maxSearches : Nat
+  bracket : List String
+
+/-- net change of `dynamic_params_depth` made by the statements standing at `place` -/
+def delta (br : List String) (place : String) : Int :=
+  (br.count (place ++ ":inc") : Int) - (br.count (place ++ ":dec") : Int)
+
+/-- the increment and the decrement sit in the same branch: nothing outside `if allowed:`, and inside
+it what is added before the `try` is taken back in its `finally` -/
+def Balanced (br : List String) : Prop :=
+  delta br "pre" = 0 ∧ delta br "blocked" = 0 ∧ delta br "allowed" + delta br "finally" = 0
+
+instance (br : List String) : Decidable (Balanced br) := by unfold Balanced; infer_instance
+
+/-- the loop of `dynamic_params._search_function_arguments` over the potential call sites:
+`i += 1; if i * dynamic_params_depth > MAX_PARAM_SEARCHES: return`; one flag per iteration
+(`true` = the call site is looked at) -/
+def searchLoop (maxS : Nat) (depth : Int) : Nat → Nat → List Bool
+  | 0, _ => []
+  | r + 1, i =>
+    if ((i + 1 : Nat) : Int) * depth > (maxS : Int) then [false]
+    else true :: searchLoop maxS depth r (i + 1)
 
 /-- what a query body does, as far as this state is concerned. Any step may raise. -/
 inductive Act where
@@ -120,52 +158,67 @@ inductive Act where
   | flowOff (body : Act)           -- find_references: try: flow=False; … finally: flow=True
   | analysis (body : Act)          -- _analysis: is_analysis=True; try: … finally: is_analysis=False
   | predefine (body : Act)         -- predefine_names: d[k]=…; try: yield finally: del d[k]
-  | dynDepth (body : Act)          -- dynamic_params_depth += 1; try: … finally: -= 1
+  | dynParam (node : Nat) (body : Act)  -- `_avoid_recursions`: a dynamic parameter lookup of function `node`
+  | searchArgs (sites : Nat)       -- `_search_function_arguments` of a function with `sites` call sites
 
-/-- outcome of a block: state, whether an exception is propagating, and the decisions of the
-capped inferences (what the query could observe of the cap) -/
+/-- outcome of a block: state, whether an exception is propagating, and what the query could observe:
+the decisions of the capped inferences, whether a dynamic lookup was allowed, which call sites a
+search looked at -/
 structure Out where
   st : QState
   raised : Bool
   seen : List Bool
 
-def run (cap factor : Nat) : QState → Act → Out
+def run (c : Cfg) : QState → Act → Out
   | s, .skip => ⟨s, false, []⟩
   | s, .raise => ⟨s, true, []⟩
   | s, .seq a b =>
-    let o := run cap factor s a
+    let o := run c s a
     if o.raised then o
     else
-      let o2 := run cap factor o.st b
+      let o2 := run c o.st b
       ⟨o2.st, o2.raised, o.seen ++ o2.seen⟩
   | s, .execute => ⟨{ s with bookkeepingFresh := false }, false, []⟩
   | s, .capped n =>
-    let r := limitStep cap factor s.counts n false
+    let r := limitStep c.cap c.factor s.counts n false
     ⟨{ s with counts := r.1 }, false, [r.2]⟩
   | s, .memoise => ⟨{ s with memo := s.memo + 1 }, false, []⟩
   | s, .flowOff b =>
-    let o := run cap factor { s with flowAnalysisEnabled := false } b
+    let o := run c { s with flowAnalysisEnabled := false } b
     ⟨{ o.st with flowAnalysisEnabled := true }, o.raised, o.seen⟩
   | s, .analysis b =>
-    let o := run cap factor { s with isAnalysis := true } b
+    let o := run c { s with isAnalysis := true } b
     ⟨{ o.st with isAnalysis := false }, o.raised, o.seen⟩
   | s, .predefine b =>
-    let o := run cap factor { s with predefined := s.predefined + 1 } b
+    let o := run c { s with predefined := s.predefined + 1 } b
     ⟨{ o.st with predefined := o.st.predefined - 1 }, o.raised, o.seen⟩
-  | s, .dynDepth b =>
-    let o := run cap factor { s with dynamicParamsDepth := s.dynamicParamsDepth + 1 } b
-    ⟨{ o.st with dynamicParamsDepth := o.st.dynamicParamsDepth - 1 }, o.raised, o.seen⟩
+  | s, .dynParam n b =>
+    -- wrapper(function_value, param_index): statements before the `with`
+    let s0 := { s with dynamicParamsDepth := s.dynamicParamsDepth + delta c.bracket "pre" }
+    -- with recursion.execution_allowed(inf, function_value.tree_node) as allowed:
+    if s0.pushed.contains n then
+      -- `yield False`: `if allowed:` is skipped, `return NO_VALUES`
+      ⟨{ s0 with dynamicParamsDepth := s0.dynamicParamsDepth + delta c.bracket "blocked" }, false, [false]⟩
+    else
+      -- pushed_nodes.append(node); yield True; if allowed: <allowed> try: return func(...) finally: <finally>
+      let o := run c { s0 with pushed := s0.pushed ++ [n],
+                               dynamicParamsDepth := s0.dynamicParamsDepth + delta c.bracket "allowed" } b
+      -- the `finally` of the wrapper, then the `finally: pushed_nodes.pop()` of execution_allowed
+      -- (the list still ends with `n`: `run_switches`), on the normal and on the raising path
+      ⟨{ o.st with dynamicParamsDepth := o.st.dynamicParamsDepth + delta c.bracket "finally",
+                   pushed := o.st.pushed.dropLast }, o.raised, true :: o.seen⟩
+  | s, .searchArgs n => ⟨s, false, searchLoop c.maxSearches s.dynamicParamsDepth n 0⟩
 
 /-- one API query: `reset_recursion_limitations()` first, then the body -/
-def query (resets : List String) (cap factor : Nat) (s : QState) (body : Act) : Out :=
-  run cap factor (reset resets s) body
+def query (resets : List String) (c : Cfg) (s : QState) (body : Act) : Out :=
+  run c (reset resets s) body
 
 /-- a session on one Script: the state after the queries, and what each observed -/
-def session (resets : List String) (cap factor : Nat) : QState → List Act → QState × List (Bool × List Bool)
+def session (resets : List String) (c : Cfg) : QState → List Act → QState × List (Bool × List Bool)
   | s, [] => (s, [])
   | s, q :: qs =>
-    let o := query resets cap factor s q
-    let r := session resets cap factor o.st qs
+    let o := query resets c s q
+    let r := session resets c o.st qs
     (r.1, (o.raised, o.seen) :: r.2)
 
 end JediModel.Determinism
